@@ -753,4 +753,72 @@ theorem set_cursor_orig_witness :
       = [.ok .created, .err .eob] := by
   decide
 
+/-! ### what the copy machine's scans mean (sanity of the spec: least / greatest match) -/
+
+/-- `scan` on a copy: the tag is at distance `k` after the cursor and at no smaller distance -/
+theorem scan_least (t : Bytes) (a : AView) (k : Nat) (a' : AView)
+    (h : arun (.scan t) a = (.ok (.nat k), a')) :
+    t.isPrefixOf ((a.win.drop a.cur).drop k) = true ∧ a'.cur = a.cur + k ∧ a'.win = a.win
+      ∧ ∀ j, j < k → t.isPrefixOf ((a.win.drop a.cur).drop j) = false := by
+  by_cases ht : t.length = 0
+  · simp [arun, ht] at h
+  · simp only [arun, ht, if_false] at h
+    split at h
+    · rename_i k' hf
+      simp only [Prod.mk.injEq, Res.ok.injEq, Out.nat.injEq] at h
+      obtain ⟨rfl, rfl⟩ := h
+      rw [List.find?_range_eq_some] at hf
+      refine ⟨hf.1, rfl, rfl, ?_⟩
+      intro j hj
+      have := hf.2.2 j hj
+      simpa using this
+    · simp at h
+
+example : arun (.scan [2, 3]) ⟨[1, 2, 3, 2, 3], 0, 0⟩ = (.ok (.nat 1), ⟨[1, 2, 3, 2, 3], 1, 0⟩) := by decide
+
+theorem find?_rev_range {p : Nat → Bool} {n j : Nat} (h : (List.range n).reverse.find? p = some j) :
+    p j = true ∧ j < n ∧ ∀ i, j < i → i < n → p i = false := by
+  induction n with
+  | zero => simp at h
+  | succ n ih =>
+    rw [List.range_succ, List.reverse_append] at h
+    simp only [List.reverse_cons, List.reverse_nil, List.nil_append, List.cons_append, List.find?_cons] at h
+    cases hp : p n with
+    | true =>
+      simp only [hp] at h
+      cases h
+      exact ⟨hp, by omega, fun i h1 h2 => by omega⟩
+    | false =>
+      simp only [hp] at h
+      obtain ⟨a, b, c⟩ := ih h
+      refine ⟨a, by omega, fun i h1 h2 => ?_⟩
+      by_cases hi : i = n
+      · subst hi; exact hp
+      · exact c i h1 (by omega)
+
+/-- `backward_scan` on a copy: the new cursor is the greatest position at which the tag lies entirely
+    before the old cursor -/
+theorem bscan_greatest (t : Bytes) (a : AView) (d : Nat) (a' : AView)
+    (h : arun (.bscan t) a = (.ok (.nat d), a')) :
+    a'.cur + t.length ≤ a.cur ∧ d = a.cur - a'.cur ∧ a'.win = a.win
+      ∧ t.isPrefixOf ((a.win.take a.cur).drop a'.cur) = true
+      ∧ ∀ i, a'.cur < i → i + t.length ≤ a.cur → t.isPrefixOf ((a.win.take a.cur).drop i) = false := by
+  by_cases ht : t.length = 0
+  · simp [arun, ht] at h
+  · simp only [arun, ht, if_false] at h
+    split at h
+    · rename_i j hf
+      simp only [Prod.mk.injEq, Res.ok.injEq, Out.nat.injEq] at h
+      obtain ⟨rfl, rfl⟩ := h
+      obtain ⟨h1, h2, h3⟩ := find?_rev_range hf
+      refine ⟨by simp only; omega, rfl, rfl, h1, ?_⟩
+      intro i hi1 hi2
+      exact h3 i hi1 (by omega)
+    · simp at h
+
+example : arun (.bscan [2, 3]) ⟨[1, 2, 3, 2, 3], 4, 0⟩ = (.ok (.nat 3), ⟨[1, 2, 3, 2, 3], 1, 0⟩) := by decide
+
+example : (runOps (Sys.init digits) [.view 0 3 4, .view 1 1 2, .release 0, .meth 2 (.scan [0x35])]).1
+    = [.ok .created, .ok .created, .ok .unit, .ok (.nat 1)] := by decide
+
 end Parsley.C17
